@@ -63,6 +63,8 @@ type FuncContract struct {
 	Assumed    bool // from /verif/assumed (external)
 	Used       bool
 	GhostMods  []string
+	Decreases    []string // termination measure (lexicographic tuple of Int expressions over the parameters)
+	DecreasesPos string
 	Abstractions []Clause // caller-visible postconditions about the ghost view that are NOT verified against the body (assumption, listed in evidence)
 	UsesRepInv   bool     // "uses repinv": representation invariants (repinv declarations) are assumed at field accesses in this function
 	GhostComps []string // ghost heap components ($ghost:...) the function changes besides its heap frame
@@ -87,7 +89,7 @@ type Contracts struct {
 }
 
 var clauseKeywords = map[string]bool{
-	"func": true, "prop": true, "arith": true, "requires": true, "ensures": true, "abstraction": true, "repinv": true, "uses": true,
+	"func": true, "prop": true, "arith": true, "requires": true, "ensures": true, "decreases": true, "abstraction": true, "repinv": true, "uses": true,
 	"modifies": true, "invariant": true, "nopanic": true, "trusted": true, "pure": true,
 	"specfn": true, "let": true, "assume": true, "typeinv": true, "protect": true,
 	"monotone": true, "results": true, "assert": true, "package": true, "sweep": true,
@@ -187,6 +189,13 @@ func parseContractFile(path string, pkgPath string, assumed bool, cs *Contracts)
 				cur.Arith = text
 			case "nopanic":
 				cur.NoPanic = true
+			case "decreases":
+				for _, m := range splitTop(text, ',') {
+					if m = strings.TrimSpace(m); m != "" {
+						cur.Decreases = append(cur.Decreases, m)
+					}
+				}
+				cur.DecreasesPos = rc.pos
 			case "uses":
 				if strings.Contains(text, "repinv") {
 					cur.UsesRepInv = true
